@@ -157,6 +157,13 @@ def older_version(cls, drop: typing.Iterable[str]) -> type:
     got = _older_cache.get(key)
     if got is not None:
         return got
+    if len(_older_cache) >= 256:
+        # bound the memory of a long-lived worker; class identity never reaches a trace or a verdict
+        from . import valgen
+        for c in list(valgen._info_cache):
+            if hasattr(c, "__verif_base__"):
+                del valgen._info_cache[c]
+        _older_cache.clear()
     hints = type_hints(cls)
     fields = []
     for f in dataclasses.fields(cls):
